@@ -28,12 +28,20 @@ Inductive items :=
     (* any other code *)
 | IBlock (body rest : items)
     (* do..end, a while body, one branch of an if *)
-| INumFor (h1 h2 h3 : list Z) (vi vl vs : option Z) (v : binding) (body rest : items)
-    (* for v = e1,e2,e3 do body end; h1..h3: points inside e1..e3 *)
-| IGenFor (h : list Z) (vs : list binding) (body rest : items)
-    (* for n1,..,nk in explist do body end; h: points inside explist *)
+| IFor (parts : list (binding * list Z)) (late : list binding) (body rest : items)
+    (* a for loop: the hidden control variables, each with the points inside the header
+       expression compiled right after it is registered; then the declared loop variables *)
 | IRepeat (body : items) (cond : list Z) (rest : items).
     (* repeat body until cond — cond sees the locals of body *)
+
+(* for v = e1,e2,e3 do body end; h1..h3: points inside e1..e3; vi vl vs: values of the hidden
+   variables where known.  The hidden names are those of Lua 5.1 (lparser.c fornum/forlist). *)
+Definition INumFor (h1 h2 h3 : list Z) (vi vl vs : option Z) (v : binding) (body rest : items) : items :=
+  IFor [((for_index, vi), h1); ((for_limit, vl), h2); ((for_step, vs), h3)] [v] body rest.
+
+(* for n1,..,nk in explist do body end; h: points inside explist *)
+Definition IGenFor (h : list Z) (vs : list binding) (body rest : items) : items :=
+  IFor [((for_generator, None), []); ((for_state, None), []); ((for_control, None), h)] vs body rest.
 
 (* names a block declares at its own level, in order (what `until` still sees) *)
 Fixpoint decls (its : items) : list binding :=
@@ -42,8 +50,7 @@ Fixpoint decls (its : items) : list binding :=
   | ILocal bs r => bs ++ decls r
   | IPoint _ r | IPad r => decls r
   | IBlock _ r => decls r
-  | INumFor _ _ _ _ _ _ _ _ r => decls r
-  | IGenFor _ _ _ r => decls r
+  | IFor _ _ _ r => decls r
   | IRepeat _ _ r => decls r
   end.
 
@@ -52,10 +59,8 @@ Definition zmem (p : Z) (l : list Z) : bool := existsb (Z.eqb p) l.
 Definition orelse {A} (a b : option A) : option A :=
   match a with Some _ => a | None => b end.
 
-Definition numfor_hidden (vi vl vs : option Z) : list binding :=
-  [(for_index, vi); (for_limit, vl); (for_step, vs)].
-Definition genfor_hidden : list binding :=
-  [(for_generator, None); (for_state, None); (for_control, None)].
+Definition for_hidden (parts : list (binding * list Z)) : list binding := map fst parts.
+Definition for_points (parts : list (binding * list Z)) : list Z := flat_map snd parts.
 
 (* variables in scope at point p, given those in scope (env) where `its` starts *)
 Fixpoint scope_at (env : list binding) (its : items) (p : Z) : option (list binding) :=
@@ -65,12 +70,9 @@ Fixpoint scope_at (env : list binding) (its : items) (p : Z) : option (list bind
   | IPoint q r => if q =? p then Some env else scope_at env r p
   | IPad r => scope_at env r p
   | IBlock b r => orelse (scope_at env b p) (scope_at env r p)
-  | INumFor h1 h2 h3 vi vl vs v b r =>
-      if zmem p (h1 ++ h2 ++ h3) then Some env
-      else orelse (scope_at (env ++ numfor_hidden vi vl vs ++ [v]) b p) (scope_at env r p)
-  | IGenFor h vs b r =>
-      if zmem p h then Some env
-      else orelse (scope_at (env ++ genfor_hidden ++ vs) b p) (scope_at env r p)
+  | IFor parts late b r =>
+      if zmem p (for_points parts) then Some env
+      else orelse (scope_at (env ++ for_hidden parts ++ late) b p) (scope_at env r p)
   | IRepeat b c r =>
       orelse (scope_at env b p)
              (if zmem p c then Some (env ++ decls b) else scope_at env r p)
@@ -92,8 +94,8 @@ Definition locals_at (f : fn) (p : Z) : option (list binding) :=
   scope_at (fn_env0 f) (f_body f) p.
 
 (* ---- the same thing said declaratively: the declared-and-not-ended names ----
-   Linearise the body into scope events; a declaration at position i is alive at position k
-   when no event between them takes the block depth below the depth at i. *)
+   Linearise the body into scope events (header expressions of a for loop are evaluated
+   before its block is entered). *)
 Inductive sev := SDecl (b : binding) | SEnter | SLeave | SPt (p : Z).
 
 Definition pts (l : list Z) : list sev := map SPt l.
@@ -105,29 +107,16 @@ Fixpoint trace (its : items) : list sev :=
   | IPoint q r => SPt q :: trace r
   | IPad r => trace r
   | IBlock b r => SEnter :: trace b ++ SLeave :: trace r
-  | INumFor h1 h2 h3 vi vl vs v b r =>
-      pts (h1 ++ h2 ++ h3) ++ SEnter :: map SDecl (numfor_hidden vi vl vs ++ [v]) ++ trace b ++ SLeave :: trace r
-  | IGenFor h vs b r =>
-      pts h ++ SEnter :: map SDecl (genfor_hidden ++ vs) ++ trace b ++ SLeave :: trace r
+  | IFor parts late b r =>
+      pts (for_points parts) ++ SEnter :: map SDecl (for_hidden parts ++ late) ++ trace b ++ SLeave :: trace r
   | IRepeat b c r => SEnter :: trace b ++ pts c ++ SLeave :: trace r
   end.
 
 Definition fn_trace (f : fn) : list sev := map SDecl (fn_env0 f) ++ trace (f_body f).
 
-Definition sev_delta (e : sev) : Z :=
-  match e with SEnter => 1 | SLeave => -1 | _ => 0 end.
-Fixpoint depth (evs : list sev) (k : nat) : Z :=         (* depth before event k *)
-  match k, evs with
-  | S j, e :: r => sev_delta e + depth r j
-  | _, _ => 0
-  end.
-
-(* declaration at position i still alive at position k (i < k) *)
-Definition alive (evs : list sev) (i k : nat) : Prop :=
-  forall j, (i < j <= k)%nat -> depth evs i <= depth evs j.
-
-(* executable form: walk the events keeping, for every pending declaration, the depth at
-   which it was made; a Leave to depth d drops the declarations made deeper than d *)
+(* Walk the events keeping, for every pending declaration, the block depth at which it was
+   made; leaving a block drops the declarations made inside it; at the point, what is left
+   - the declared and not ended names, in declaration order - is the answer. *)
 Fixpoint dne (evs : list sev) (d : Z) (acc : list (Z * binding)) (p : Z) : option (list binding) :=
   match evs with
   | [] => None
